@@ -1,6 +1,7 @@
 import Litestream.Lemmas.LtxChain
 import Litestream.Lemmas.CompactLevel
 import Litestream.Gen.CompactLoop
+import Litestream.Gen.CacheLock
 /-!
 # C06 — Compaction never changes what is restored; levels stay contiguous
 
@@ -155,6 +156,46 @@ theorem output_range_is_source_range {st : RState} {dst : Nat} {pk : LevelPick} 
 theorem gen_compact_loop :
     Gen.CompactLoop.breaks = 0 ∧ Gen.CompactLoop.exitsBeforeAppend = 0 ∧ Gen.CompactLoop.rangeUpdates = 2 := by
   decide
+
+/-! ### the max-file cache and its mutex -/
+
+/-- (T) The protocol of `DB.MaxLTXFileInfo` regenerated from /repo/db.go is executable on its
+    own (locks balanced, every map access under the mutex) and no other code touches the map
+    outside the mutex. -/
+theorem gen_cache_protocol_wf :
+    (crun (cinit 6) Gen.CacheLock.maxLTXFileInfo).isSome = true ∧
+    (crun (cinit 6) Gen.CacheLock.maxLTXFileInfo).map (·.held) = some false ∧
+    Gen.CacheLock.unlockedAccesses = 0 := by decide
+
+/-- **A listing result never overwrites a newer entry set by a compaction.**  For the
+    regenerated protocol of `DB.MaxLTXFileInfo`, wherever a concurrent `Compact(level)`
+    takes effect (after any number `k` of the lister's events, for any old end `old` of the
+    level and any new file end `new`), the cache afterwards is empty or names the newest file. -/
+theorem cache_listing_never_overwrites_newer (old new k : Nat) :
+    cacheOk (runWith Gen.CacheLock.maxLTXFileInfo k old new) = true := by
+  have hP : Gen.CacheLock.maxLTXFileInfo = [CEv.lock, CEv.lookup, CEv.list, CEv.store, CEv.unlock] := by
+    first | rfl | decide
+  rw [hP]
+  match k with
+  | 0 => simp [runWith, crun, cstep, compactAct, cinit, cacheOk]
+  | 1 => simp [runWith, crun, cstep, compactAct, cinit, cacheOk]
+  | 2 => simp [runWith, crun, cstep, compactAct, cinit, cacheOk]
+  | 3 => simp [runWith, crun, cstep, compactAct, cinit, cacheOk]
+  | 4 => simp [runWith, crun, cstep, compactAct, cinit, cacheOk]
+  | n + 5 => simp [runWith, crun, cstep, compactAct, cinit, cacheOk]
+
+/-- Kernel-checked witness that the protocol lookup – unlock – list – lock – store loses the
+    update: the level ends at 6, the lister lists it, `Compact` writes 7-8 and caches 8, the
+    lister then stores 6 — the next compaction seeks from 7 again (overlap). -/
+theorem unlocked_listing_loses_update :
+    cacheOk (runWith [CEv.lock, CEv.lookup, CEv.unlock, CEv.list, CEv.lock, CEv.store, CEv.unlock] 4 6 8) = false := by
+  decide
+
+/-- Re-checking the entry under the lock before storing repairs the unlocked variant. -/
+example : ∀ k ∈ List.range 8,
+    cacheOk (runWith [CEv.lock, CEv.lookup, CEv.unlock, CEv.list, CEv.lock, CEv.storeIfAbsent, CEv.unlock] k 6 8) = true := by
+  decide
+
 
 end C06
 end Litestream
